@@ -9,3 +9,9 @@ import OmplModel.Props.C13
 #print axioms OmplModel.Props.C13.gridB_one_queue
 #print axioms OmplModel.Props.C13.counts_sum
 #print axioms OmplModel.Props.C13.tops_best
+#print axioms OmplModel.Props.C13.discretization_obeys_grid_protocol
+#print axioms OmplModel.Props.C13.disc_motions_in_cells
+#print axioms OmplModel.Props.C13.disc_grid_invariants
+#print axioms OmplModel.Props.C13.disc_select_returns_stored_motion
+#print axioms OmplModel.Props.C13.disc_select_empty_side
+#print axioms OmplModel.Props.C13.disc_importance_pos
